@@ -73,14 +73,14 @@ PROPS["C12"] = {
 }
 
 C17_Q = ["Harness_C17_list_1", "Harness_C17_list_2", "Harness_C17_create_0", "Harness_C17_create_1", "Harness_C17_revoke_1", "Harness_C17_revoke_2",
-         "Harness_C17_pages_owner_2", "Harness_C17_pages_owner_3", "Harness_C17_pages_all_2", "Harness_C17_create_1_wide", "Harness_C17_revoke_1_wide"]
+         "Harness_C17_pages_owner_2", "Harness_C17_pages_owner_3", "Harness_C17_pages_all_2"]
 PROPS["C17"] = {
     "jobs": [{
         "pkg": "x/cert/keeper",
         "files": ["harness/C17/certs.go", "harness/C17/query.go"],
         "shims": ["shim.go.tmpl", "shim_chain.go.tmpl", "shim_cert.go.tmpl"],
         "quick": C17_Q,
-        "thorough": C17_Q + ["Harness_C17_pages_owner_3b", "Harness_C17_pages_all_3", "Harness_C17_list_3", "Harness_C17_create_2", "Harness_C17_list_1_wide", "Harness_C17_list_2_wide"],
+        "thorough": C17_Q + ["Harness_C17_pages_owner_3b", "Harness_C17_pages_all_3", "Harness_C17_list_3", "Harness_C17_create_2", "Harness_C17_list_1_wide", "Harness_C17_list_2_wide", "Harness_C17_create_1_wide", "Harness_C17_revoke_1_wide"],
         "opts": {"timeout": 20000, "maxbigbytes": 9},
     }],
     "bounds": {
